@@ -97,6 +97,10 @@ pub struct SCfg {
     /// the peer sends its whole script at once, before the server is polled at all
     #[serde(default)]
     pub burst: bool,
+    /// the peer may also reuse an id after cancelling it / after it expired, provided the earlier
+    /// handler never completed (C08 only; see reuse_ok)
+    #[serde(default)]
+    pub reuse_after_end: bool,
     /// deadline of unscripted duplicate requests (DupReq events)
     #[serde(default = "default_dup_deadline")]
     pub dup_deadline_ms: i64,
@@ -477,7 +481,7 @@ impl World {
         }) && earlier
             .iter()
             .all(|(_, p, d)| cancelled || *d < now || st.app_dropped.contains(p));
-        in_flight || ended_clean
+        in_flight || (self.cfg.reuse_after_end && ended_clean)
     }
 
     /// Called when a request reusing `id` is actually sent: if the reuse is only legal because the
